@@ -103,8 +103,14 @@ package posix
 //@ func (*Posix) AbortMultipartUpload
 //@   at-call os.RemoveAll {C08} [abort-removes-only-this-upload] requires $0 == filepath.Join(objdir, uploadID)
 
-// C20: the versioning attribute of a bucket is always exactly one byte, so GetBucketVersioning's vData[0] cannot
-// fault (the read side relies on this through the trusted contract of MetadataStorer.RetrieveAttribute).
+// C20: the versioning attribute of a bucket and the legal-hold attribute of an object are always exactly one byte, so
+// GetBucketVersioning's vData[0] and GetObjectLegalHold's data[0] cannot fault: the functions that write them prove
+// the length at the call (guarantee); the read side is the postcondition of MetadataStorer.RetrieveAttribute (rely,
+// trusted, /verif/contracts/trusted/os.spec).
 //@ func (*Posix) PutBucketVersioning
 //@   requires {C20} [status-is-enabled-or-suspended] status == "Enabled" || status == "Suspended"
 //@   at-call meta.MetadataStorer.StoreAttribute {C20} [versioning-attribute-is-one-byte] when $3 == "versioning" :: requires len($4) == 1
+//@ func (*Posix) PutObjectLegalHold
+//@   at-call meta.MetadataStorer.StoreAttribute {C20} [legal-hold-attribute-is-one-byte] when $3 == "object-legal-hold" :: requires len($4) == 1
+//@ func (*Posix) CompleteMultipartUpload
+//@   at-call meta.MetadataStorer.StoreAttribute {C20} [legal-hold-attribute-is-one-byte] when $3 == "object-legal-hold" :: requires len($4) == 1
